@@ -62,7 +62,21 @@ def setup(ctx, mon):
     D.setup_monitors(ctx, mon, ANCHORS)
 
 
+# a witness of the listed finding selector-picked-steps-beyond-validity-radius (the quick tier does not always draw one)
+KNOWN_WITNESSES = [
+    dict(kind='multi', cls='Gradient', dim=2, method='central', order=4, g=[6, 1], x=[0.0476, 0.4929], stationary=[False, False],
+         m=2, beta=-1.891, seed=1786700754,
+         step=dict(kind='min', opts=dict(base_step=0.005345692900430121, num_steps=13, step_ratio=5.1053359493103))),
+]
+
+
 def cases(rng, tier, shard, nshards):
+    if shard == 0:
+        from vf.props.c01 import CORPUS
+        for c in CORPUS:       # the inputs of repaired defects and of listed findings, under this property's oracle too
+            yield dict(dict(shape=[], step=dict(kind='default'), cplx=False, stationary=False, int_x=False, kind='derivative'), **c)
+        for c in KNOWN_WITNESSES:
+            yield dict(c)
     total = BUDGET[tier] // nshards
     ncells = sum((D.NMAX[m] + 1) * 8 for m in D.METHODS)
     k = shard
